@@ -5,6 +5,7 @@ package main
 
 import (
 	"fmt"
+	"go/ast"
 	"go/types"
 	"regexp"
 	"sort"
@@ -340,6 +341,7 @@ type State struct {
 	ghostTmp map[string]Val // spec-level bindings attached to the path (event variables)
 	dead    bool
 	writes  map[string][]wr // heap component -> locations written since function entry
+	inlined map[*ast.CallExpr][]Val // results of calls that were executed inline
 }
 
 // wr records a write into a heap component at reference ref ("*" = anywhere) under guard.
@@ -378,6 +380,12 @@ func (s *State) fork() *State {
 		n.writes = make(map[string][]wr, len(s.writes))
 		for k, v := range s.writes {
 			n.writes[k] = v
+		}
+	}
+	if s.inlined != nil {
+		n.inlined = make(map[*ast.CallExpr][]Val, len(s.inlined))
+		for k, v := range s.inlined {
+			n.inlined[k] = v
 		}
 	}
 	if s.ghostTmp != nil {
